@@ -4,6 +4,7 @@ import (
 	"context"
 	"errors"
 	"fmt"
+	"regexp"
 	"strings"
 	"time"
 
@@ -42,7 +43,7 @@ type runOut struct {
 
 var errTimeout = errors.New("TIMEOUT: query did not finish")
 
-var watchdog = 3 * time.Second
+var watchdog = 5 * time.Second
 
 // drainWatch drains p under a watchdog; on timeout the context is cancelled.
 func drainWatch(rctx *runtime.Context, p zbuf.Puller, d time.Duration) ([]string, error) {
@@ -104,7 +105,7 @@ func guard(f func() runOut) runOut {
 		return r
 	case <-time.After(watchdog + 8*time.Second):
 		guardStuck++
-		return runOut{Err: errTimeout, Stage: "stuck"}
+		return runOut{Err: errTimeout, Stage: "run"}
 	}
 }
 
@@ -288,8 +289,15 @@ func project(vals []string, exprs []string) ([]string, error) {
 	if len(vals) == 0 {
 		return nil, nil
 	}
-	return RunQuery("yield ["+strings.Join(exprs, ",")+"]", strings.Join(vals, "\n"))
+	out, err := RunQuery("yield ["+strings.Join(exprs, ",")+"]", strings.Join(vals, "\n"))
+	// sort, merge and pools order missing, null and typed null keys alike
+	for i := range out {
+		out[i] = nullish.ReplaceAllString(out[i], "null")
+	}
+	return out, err
 }
+
+var nullish = regexp.MustCompile(`error\("missing"\)|null\([a-z0-9]+\)`)
 
 func errClass(err error) string {
 	if err == nil {
